@@ -23,7 +23,7 @@ ASSUMPTIONS = [
     "expected path text = the raw path template with mapped values substituted (vp.confmodel.PathModel.render), normalised by pathlib",
 ]
 
-ODD_CHARS = list("\\ '()[]{}$^|+~!@#%&=;") + ["\\\\", "\\x"]
+ODD_CHARS = list("\\ '()[]{}$^|+~!@#%&=;") + ["\\\\", "\\x", "e\u0301", "\u00e9", "\u212b"]
 
 _paths_seen = {}   # (config, path) -> uri   (run-wide, per worker)
 
